@@ -62,7 +62,17 @@ ssize_t vn_send(int fd, const void *b, size_t n, int fl) { const Fault *f = cons
 ssize_t vn_recv(int fd, void *b, size_t n, int fl) { const Fault *f = consume("recv"); if (f && f->kind == 1) { errno = EINTR; return -1; } if (f && f->kind == 2) { errno = EAGAIN; return -1; } if (f && f->kind == 3 && n > 1) n = (size_t)std::max(1, std::min<int>((int)n - 1, f->arg)); ENTER; ssize_t r = recv(fd, b, n, fl); int e = errno; LEAVE; errno = e; return r; }
 ssize_t vn_sendto(int fd, const void *b, size_t n, int fl, const struct sockaddr *a, socklen_t al) { const Fault *f = consume("sendto"); if (f && f->kind == 1) { errno = EINTR; return -1; } if (f && f->kind == 2) { errno = EAGAIN; return -1; } ENTER; ssize_t r = sendto(fd, b, n, fl, a, al); int e = errno; LEAVE; errno = e; return r; }
 ssize_t vn_recvfrom(int fd, void *b, size_t n, int fl, struct sockaddr *a, socklen_t *al) { const Fault *f = consume("recvfrom"); if (f && f->kind == 1) { errno = EINTR; return -1; } if (f && f->kind == 2) { errno = EAGAIN; return -1; } ENTER; ssize_t r = recvfrom(fd, b, n, fl, a, al); int e = errno; LEAVE; errno = e; return r; }
-int vn_poll(struct pollfd *p, nfds_t n, int t) { W.polls++; const Fault *f = consume("poll"); if (f && f->kind == 1) { errno = EINTR; return -1; } ENTER; int r = poll(p, n, t); int e = errno; LEAVE; errno = e; return r; }
+int vn_poll(struct pollfd *p, nfds_t n, int t) {
+  W.polls++;
+  const Fault *f = consume("poll");
+  if (f && f->kind == 1) {
+    // the interruption arrives f->arg milliseconds into the wait (0 = at once) unless the awaited event comes first or the timeout is shorter
+    int lead = f->arg > 0 && f->arg < 1000 ? f->arg : 0;
+    if (lead > 0) { if (t >= 0 && t <= lead) { ENTER; int r0 = poll(p, n, t); int e0 = errno; LEAVE; errno = e0; return r0; } ENTER; int r1 = poll(p, n, lead); int e1 = errno; LEAVE; if (r1 != 0) { errno = e1; return r1; } }
+    errno = EINTR; return -1;
+  }
+  ENTER; int r = poll(p, n, t); int e = errno; LEAVE; errno = e; return r;
+}
 int vn_connect(int fd, const struct sockaddr *a, socklen_t l) { const Fault *f = consume("connect"); if (f && f->kind == 1) { errno = EINTR; return -1; } ENTER; int r = connect(fd, a, l); int e = errno; LEAVE; errno = e; return r; }
 int vn_accept(int fd, struct sockaddr *a, socklen_t *l) { const Fault *f = consume("accept"); if (f && f->kind == 1) { errno = EINTR; return -1; } if (f && f->kind == 2) { errno = EAGAIN; return -1; } ENTER; int r = accept(fd, a, l); int e = errno; LEAVE; errno = e; return r; }
 int vn_socket(int d, int t, int p) { consume("socket"); return socket(d, t, p); }
@@ -529,15 +539,16 @@ Outcome run_c10(const Case &c) {
 
 // ---- C19: transparency to interruptions -----------------------------------------------------------------------
 std::atomic<long> g_signals{0}, g_signals_in_call{0};
-timer_t g_storm_timer; std::atomic<int> g_storm_on{0};
+timer_t g_storm_timer; std::atomic<int> g_storm_on{0}; std::atomic<long> g_storm_max{4000};
 void storm_handler(int) {
   long n = ++g_signals; if (W.inside_blocking.load() > 0) g_signals_in_call++;
   // a storm must not starve the thread it is aimed at: stop after 4000 signals (timer_settime is async-signal-safe)
-  if (n >= 4000 && g_storm_on.load()) { struct itimerspec z; memset(&z, 0, sizeof z); timer_settime(g_storm_timer, 0, &z, NULL); }
+  if (n >= g_storm_max.load() && g_storm_on.load()) { struct itimerspec z; memset(&z, 0, sizeof z); timer_settime(g_storm_timer, 0, &z, NULL); }
 }
 struct Storm {
   timer_t t; bool on = false;
-  void start(long period_us) {
+  void start(long period_us, long max_signals = 4000) {
+    g_storm_max = max_signals;
     struct sigaction sa; memset(&sa, 0, sizeof sa); sa.sa_handler = storm_handler; sigemptyset(&sa.sa_mask); sa.sa_flags = 0; // no SA_RESTART
     sigaction(SIGUSR1, &sa, NULL);
     struct sigevent ev; memset(&ev, 0, sizeof ev); ev.sigev_notify = SIGEV_THREAD_ID; ev.sigev_signo = SIGUSR1; ev._sigev_un._tid = (pid_t)syscall(186 /* gettid */);
@@ -606,6 +617,28 @@ Outcome run_c19(const Case &c) {
     storm.stop();
     if (!o.verdict.empty()) fail("socket-" + o.klass, "blocking socket scenario under interruptions: " + o.verdict);
     if (o.inconclusive) out.inconclusive = true;
+  } else if (sc == "timed_wait") {
+    // a blocking socket WITH a timeout T: (p3 even) nothing ever arrives -> must fail with timed-out, not before T;
+    // (p3 odd) the datagram arrives at p1 ms < T -> must be received.  Interruptions must not change either outcome.
+    long T = 250;
+    PSocket *r = p_socket_new(P_SOCKET_FAMILY_INET, P_SOCKET_TYPE_DATAGRAM, P_SOCKET_PROTOCOL_UDP, NULL);
+    PSocketAddress *la = p_socket_address_new("127.0.0.1", 0); p_socket_bind(r, la, TRUE, NULL); p_socket_address_free(la);
+    PSocketAddress *loc = p_socket_get_local_address(r, NULL); int port = p_socket_address_get_port(loc); p_socket_address_free(loc);
+    p_socket_set_timeout(r, (pint)T);
+    bool late_data = c.p3 % 2 == 1; long at = std::min<long>(std::max<long>(c.p1, 20) * 3, 180);
+    std::thread helper([&] { sigset_t ss; sigemptyset(&ss); sigaddset(&ss, SIGUSR1); pthread_sigmask(SIG_BLOCK, &ss, NULL); if (!late_data) return; usleep((useconds_t)(at * 1000)); int sfd = socket(AF_INET, SOCK_DGRAM, 0); sockaddr_storage sa; socklen_t sl = loop_addr(4, port, sa); sendto(sfd, "late", 4, 0, (sockaddr *)&sa, sl); close(sfd); });
+    // a timed wait restarts its full timeout after every interruption (only the lower bound is specified), so the storm is finite: 12 signals
+    arm(c.plan); if (storm_period) storm.start(storm_period, 12);
+    char buf[16]; PError *err = NULL; double t0 = now_ms();
+    pssize n = p_socket_receive(r, buf, sizeof buf, &err);
+    double dt = now_ms() - t0;
+    storm.stop(); disarm(); helper.join();
+    if (late_data) { if (n != 4) fail(err && p_error_get_code(err) == P_ERROR_IO_TIMED_OUT ? "timed-wait-early-timeout" : "timed-wait", "receive with timeout " + std::to_string(T) + " ms returned " + std::to_string(n) + " after " + std::to_string(dt) + " ms although the datagram was sent at " + std::to_string(at) + " ms (interruptions changed the outcome): " + errstr(err)); }
+    else if (n >= 0) fail("timed-wait", "receive returned data although nothing was sent");
+    else if (!err || p_error_get_code(err) != P_ERROR_IO_TIMED_OUT) fail(would_block_code(err) ? "socket-interrupted-error" : "timed-wait", "timed receive with nothing sent failed with " + errstr(err) + " instead of timed-out");
+    else if (dt < T - 0.5) fail("timed-wait-early-timeout", "receive with timeout " + std::to_string(T) + " ms timed out after only " + std::to_string(dt) + " ms while interruptions were delivered");
+    if (err) p_error_free(err);
+    p_socket_free(r);
   } else if (sc == "accept_wait") {
     PSocket *srv = p_socket_new(P_SOCKET_FAMILY_INET, P_SOCKET_TYPE_STREAM, P_SOCKET_PROTOCOL_TCP, NULL);
     PSocketAddress *la = p_socket_address_new("127.0.0.1", 0); p_socket_bind(srv, la, TRUE, NULL); p_socket_listen(srv, NULL); p_socket_address_free(la);
@@ -679,7 +712,7 @@ rc::Gen<Case> genC10() {
 }
 rc::Gen<Case> genC19() {
   using namespace rc;
-  return gen::map(gen::tuple(gen::element<string>("sleep", "sleep", "sem_acquire", "shm_lock", "ipc_new", "tcp", "accept_wait"), gen::element<long>(1, 20, 60), gen::weightedElement<long>({{2, 0}, {1, 200}, {2, 500}, {2, 2000}, {1, 20000}}), rng(0, 4),
+  return gen::map(gen::tuple(gen::element<string>("sleep", "sleep", "sem_acquire", "shm_lock", "ipc_new", "tcp", "accept_wait", "timed_wait", "timed_wait"), gen::element<long>(1, 20, 60), gen::weightedElement<long>({{2, 0}, {1, 200}, {2, 500}, {2, 2000}, {2, 20000}, {1, 45000}}), rng(0, 4),
                              gen::resize(3, gen::container<vector<Fault>>(genFault({"clock_nanosleep", "sem_wait", "sem_open", "shm_open", "poll", "recv", "send", "connect", "accept"}, true)))),
                   [](const std::tuple<string, long, long, int, vector<Fault>> &t) { Case c; c.prop = "C19"; c.scen = std::get<0>(t); c.p1 = std::get<1>(t); c.p2 = std::get<2>(t); c.p3 = std::get<3>(t); c.plan = std::get<4>(t); return c; });
 }
@@ -718,20 +751,22 @@ void enumerate(const string &prop, long shard, long nshards) {
     vl::stats().exhaustive["C09_every_single_fault_plan_call_x_k<=6_x_fault_on_3_base_transfers"] = true;
   } else if (prop == "C19") {
     struct Site { const char *scen; const char *call; };
-    static const Site sites[] = {{"sleep", "clock_nanosleep"}, {"sem_acquire", "sem_wait"}, {"shm_lock", "sem_wait"}, {"ipc_new", "sem_open"}, {"ipc_new", "shm_open"}, {"tcp", "poll"}, {"tcp", "recv"}, {"tcp", "send"}, {"tcp", "connect"}, {"tcp", "accept"}, {"accept_wait", "poll"}, {"accept_wait", "accept"}, {"accept_wait", "recv"}};
+    static const Site sites[] = {{"sleep", "clock_nanosleep"}, {"sem_acquire", "sem_wait"}, {"shm_lock", "sem_wait"}, {"ipc_new", "sem_open"}, {"ipc_new", "shm_open"}, {"tcp", "poll"}, {"tcp", "recv"}, {"tcp", "send"}, {"tcp", "connect"}, {"tcp", "accept"}, {"accept_wait", "poll"}, {"accept_wait", "accept"}, {"accept_wait", "recv"}, {"timed_wait", "poll"}, {"timed_wait", "recv"}};
     for (auto &s : sites)
       for (int k = 1; k <= 5; k++)
         for (int burst : {1, 3}) {
           if ((idx++ % nshards) != shard) continue;
           Case c; c.prop = "C19"; c.scen = s.scen; c.p1 = 20; c.p2 = 0; c.p3 = k;
-          Fault f; f.call = s.call; f.k = k; f.kind = 1; f.burst = burst; c.plan.push_back(f);
+          Fault f; f.call = s.call; f.k = k; f.kind = 1; f.burst = burst; f.arg = (k % 2) ? 15 : 0; c.plan.push_back(f);   // poll: the interruption arrives 15 ms into the wait for odd k
           exec("enum", c, false);
+          if (string(s.scen) == "timed_wait") { Case d = c; d.p3 = k + 1; exec("enum", d, false); }   // both variants: nothing arrives / late datagram
         }
     // signal storms: every site x 5 periods
-    for (const char *scen : {"sleep", "sem_acquire", "shm_lock", "ipc_new", "tcp", "accept_wait"})
-      for (long period : {200L, 450L, 1000L, 3000L, 15000L}) {
+    for (const char *scen : {"sleep", "sem_acquire", "shm_lock", "ipc_new", "tcp", "accept_wait", "timed_wait", "timed_wait_late"})
+      for (long period : {200L, 450L, 1000L, 3000L, 15000L, 40000L}) {
         if ((idx++ % nshards) != shard) continue;
         Case c; c.prop = "C19"; c.scen = scen; c.p1 = string(scen) == "sleep" ? 60 : 25; c.p2 = period; c.p3 = period % 2;
+        if (string(scen) == "timed_wait_late") { c.scen = "timed_wait"; c.p3 = 1; c.p1 = 60; } else if (string(scen) == "timed_wait") c.p3 = 0;
         exec("storm", c, false);
       }
     vl::stats().exhaustive["C19_single_EINTR_at_invocation_k<=5_(burst_1|3)_of_every_blocking_call_site"] = true;
